@@ -13,15 +13,22 @@ def make_source(tmp, dims, bs, rate, o):
     stored = sorted(o.get('stored', (73, 189, 193)))
     rng = np.random.default_rng(4)
     headers = {f: rng.integers(-2 ** 31, 2 ** 31 - 1, size=dims[0] * dims[1], dtype=np.int64).astype('<i4') for f in stored}
+    tracecount = None
+    holes = list(o.get('holes', ()))
+    if holes:
+        n_grid = dims[0] * dims[1]
+        headers[189] = np.array([0 if g in holes else 10 + 2 * (g // dims[1]) for g in range(n_grid)], dtype='<i4')
+        headers[193] = np.array([0 if g in holes else 20 + 3 * (g % dims[1]) for g in range(n_grid)], dtype='<i4')
+        tracecount = n_grid - len(holes)
     specio.write_sgz_3d(path, cube, tuple(bs), rate, il0=o.get('il0', 100), xl0=o.get('xl0', 200), il_step=o.get('il_step', 1),
-                        xl_step=o.get('xl_step', 1), version=o.get('version') or specio.enc_version(0, 2, 5), headers=headers)
+                        xl_step=o.get('xl_step', 1), version=o.get('version') or specio.enc_version(0, 2, 5), headers=headers, tracecount=tracecount)
     hdr, vol = specio.decode_sgz(path)
     return path, vol, headers, stored
 
 
-def conformance(path, dims, bs, rate, stored):
+def conformance(path, dims, bs, rate, stored, tracecount=None):
     from replay.writers import check_container_file
-    bad, h, e = check_container_file(path, tuple(dims), tuple(bs), rate, dims[0] * dims[1], stored)
+    bad, h, e = check_container_file(path, tuple(dims), tuple(bs), rate, dims[0] * dims[1] if tracecount is None else tracecount, stored)
     return [b for b in bad if not b.startswith('recorded version')], h
 
 
@@ -41,6 +48,10 @@ def replay_crop(req, tmp):
     what = 'SgzCropper(%s cube, blockshape %s).write_cropped_file_by_indexes(%s, %s, %s)' % (dims, bs, *rngs)
     try:
         with SgzCropper(src) as c:
+            if o.get('pre') == 'tracefield':
+                quiet(c.get_tracefield_values, stored[-1])
+            elif o.get('pre') == 'header':
+                quiet(c.gen_trace_header, 0, load_all_headers=True)
             quiet(c.write_cropped_file_by_indexes, out, rngs[0], rngs[1], rngs[2])
     except IndexError:
         if valid:
@@ -106,7 +117,15 @@ def replay_reblock(req, tmp):
         return dict(reproduced=False, detail='%s refused (%s)' % (what, type(e).__name__))
     if not supported:
         return dict(reproduced=True, detail='%s converted an unsupported input instead of refusing' % what, extra=dict(outcome='accepted'))
-    bad, h = conformance(out, dims, (64, 64, 4), 2, stored)
+    holes = list(o.get('holes', ()))
+    bad, h = conformance(out, dims, (64, 64, 4), 2, stored, tracecount=dims[0] * dims[1] - len(holes) if holes else None)
+    try:
+        _, out_arrays = specio.footer_arrays(out)
+        for f in stored:
+            if f not in out_arrays or out_arrays[f].size != headers[f].size or not np.array_equal(out_arrays[f], headers[f]):
+                bad.append('footer array of field %d is not the source array (one value per grid position)' % f)
+    except Exception as e:
+        bad.append('footer unreadable per spec: %s' % type(e).__name__)
     with open(src, 'rb') as f1, open(out, 'rb') as f2:
         h1, h2 = f1.read(8192), f2.read(8192)
     if h1[960:980] != h2[960:980] or h1[4096:7696] != h2[4096:7696]:
@@ -118,10 +137,11 @@ def replay_reblock(req, tmp):
         if got.shape != exp.shape or not bits_equal(got, exp):
             g, e = np.ascontiguousarray(got, dtype=np.float32).view(np.uint32), np.ascontiguousarray(exp, dtype=np.float32).view(np.uint32)
             bad.append('decoded volume differs from the source at %s of %d voxels' % (int(np.count_nonzero(g != e)) if g.shape == e.shape else 'shape %s' % (got.shape,), e.size))
-        for t in (0, dims[0] * dims[1] - 1):
+        present = [g for g in range(dims[0] * dims[1]) if g not in holes]
+        for t in (0, len(present) - 1):
             hd = quiet(r.gen_trace_header, t)
             for f in stored:
-                if int(hd[segyio.tracefield.TraceField(f)]) != int(headers[f][t]):
+                if int(hd[segyio.tracefield.TraceField(f)]) != int(headers[f][present[t]]):
                     bad.append('header of trace %d field %d differs' % (t, f))
         r.close()
     except Exception as e:
